@@ -409,6 +409,12 @@ class SyncInterpreter(BaseInterpreter[TContext, TEvent]):
                     break
 
                 current_event = self._event_queue.popleft()
+                # 🗑️ An engine-raised event whose activation has ended.
+                if self._is_stale_event(current_event):
+                    logger.debug(
+                        "🗑️ Discarding stale event '%s'.", current_event.type
+                    )
+                    continue
                 logger.info("⚙️ Processing event: '%s'", current_event.type)
 
                 for plugin in self._plugins:
@@ -695,6 +701,7 @@ class SyncInterpreter(BaseInterpreter[TContext, TEvent]):
         for state in states_to_enter:
             logger.info("➡️ Entering state: '%s'", state.id)
             self._active_state_nodes.add(state)
+            self._note_activation(state)
             # 📨 Pass the REAL triggering event through. Synthesising an
             #    `entry.<id>` event here discarded the payload, so an entry
             #    action reading `event.payload` — the normal way to seed state
